@@ -245,3 +245,10 @@ func GenVal(k ValKinds) *rapid.Generator[*Val] {
 		}
 	})
 }
+
+// WeirdNumerics are bare words that Go's number syntax accepts (or nearly accepts)
+// in surprising ways; they are printed as raw terms (their meaning is left to M1).
+var WeirdNumerics = []string{"NaN", "nan", "Inf", "inf", "Infinity", "infinity", "0x1p-2", "0X1P+2", "1e400", "1_000", "0x10", "5.", "1e5", "1E-5", "007", "-0", "-0.0", "1e-400", "9223372036854775807", "9223372036854775808", "-9223372036854775808", "18446744073709551616", "0b101", "0o17", "٣", "1.7976931348623157e308"}
+
+// RawWord makes a value that is printed verbatim; only its Src is meaningful.
+func RawWord(src string) *Val { return &Val{K: VWord, Src: src, S: src} }
